@@ -36,7 +36,7 @@ type Case struct {
 	NameSet    int    `json:"nameSet,omitempty"`     // 0: a..e; 1: names with separators; 2: 300 endpoints
 	InPlace    bool   `json:"inPlace,omitempty"`     // the caller keeps one slice and edits it in place between SetEndpoints calls
 	EditOpts   int    `json:"editOptions,omitempty"` // >0: right after the construction the caller re-uses its options object: 1 both durations one hour, 2 both zero, 3 both negative, 4 the Endpoints field is set to nil
-	EmptyFirst int    `json:"emptyFirst,omitempty"`  // >0: a construction with an empty list (1 nil, 2 empty slice) is attempted first and must be rejected
+	EmptyFirst int    `json:"emptyFirst,omitempty"`  // >0: a construction with an empty list (1 nil list, 2 empty slice, 3 nil options pointer) is attempted first and must be rejected
 	Ops        []Op   `json:"ops"`
 	Failure    *Fail  `json:"failure,omitempty"`
 }
@@ -341,7 +341,21 @@ func Run(c *Case, props map[string]bool) (res Result) {
 	if c.InPlace {
 		initArg = callerList
 	}
-	if c.EmptyFirst > 0 {
+	if c.EmptyFirst == 3 {
+		// no options at all: there is no endpoint list, the construction is refused like one with an empty list
+		lab["construction-with-nil-options"]++
+		var bad multiendpoint.MultiEndpoint
+		var err error
+		var p interface{}
+		func() {
+			defer func() { p = recover() }()
+			bad, err = multiendpoint.NewMultiEndpoint(nil)
+		}()
+		if p != nil || err == nil || bad != nil {
+			fail("C13", "B.emptyList", "NewMultiEndpoint(nil) returned (%v, %v) panic=%v, want an error and no object", bad, err, p)
+			endIfOtherFailed()
+		}
+	} else if c.EmptyFirst > 0 {
 		var l []string
 		if c.EmptyFirst == 2 {
 			l = []string{}
